@@ -13,6 +13,11 @@ from odfdo.utils.coordinates import digit_to_alpha
 from h_ktab import mktab, ref
 from ktable import IntCell, KRow, wrap, x_value, x_total, snapshot
 from vlib.hk import done
+import os
+
+D = int(os.environ.get("VERIF_DEPTH", "0"))  # thorough tier: deeper bounds (per process)
+RS = 2 + D   # repeats of the small templates
+PS = 4 + 2 * D   # probe / position bound of the small templates
 
 
 def _pure(t, snap, tmap, cmap):
@@ -140,8 +145,8 @@ def _rows_small(r0, r1, c0, c1, start, end, k, qx, only_live):
 
 def kget_rows_small(r0: int, r1: int, c0: int, c1: int, start: int, end: int, k: int, qx: int) -> bool:
     """
-    pre: 1 <= r0 <= 2 and 1 <= r1 <= 2 and 1 <= c0 <= 2 and 1 <= c1 <= 2
-    pre: 0 <= start <= 4 and 0 <= end <= 5 and 0 <= k <= 4 and 0 <= qx <= 4
+    pre: 1 <= r0 <= RS and 1 <= r1 <= RS and 1 <= c0 <= RS and 1 <= c1 <= RS
+    pre: 0 <= start <= PS and 0 <= end <= PS + 1 and 0 <= k <= PS and 0 <= qx <= PS
     post: _
     """
     # traverse(start, end) / get_rows((start, end)) / rows: one row per logical position in
@@ -153,8 +158,8 @@ def kget_rows_small(r0: int, r1: int, c0: int, c1: int, start: int, end: int, k:
 
 def kget_rows_small_live(r0: int, r1: int, c0: int, c1: int, start: int, end: int, k: int, qx: int) -> bool:
     """
-    pre: 1 <= r0 <= 2 and 1 <= r1 <= 2 and 1 <= c0 <= 2 and 1 <= c1 <= 2
-    pre: 0 <= start <= 4 and 0 <= end <= 5 and 0 <= k <= 4 and 0 <= qx <= 4
+    pre: 1 <= r0 <= RS and 1 <= r1 <= RS and 1 <= c0 <= RS and 1 <= c1 <= RS
+    pre: 0 <= start <= PS and 0 <= end <= PS + 1 and 0 <= k <= PS and 0 <= qx <= PS
     post: _
     """
     # companion restricted to the known-finding region: the k-th yielded row is stored un-repeated
@@ -191,8 +196,8 @@ def _cells_small(r0, r1, c0, c1, x, y, z, tt, i, j):
 
 def kget_cells_small_cols(c0: int, c1: int, x: int, z: int, tt: int, i: int, j: int) -> bool:
     """
-    pre: 1 <= c0 <= 2 and 1 <= c1 <= 2
-    pre: 0 <= x <= 3 and x <= z <= 4 and 0 <= tt <= 2 and 0 <= i <= 3 and 0 <= j <= 1
+    pre: 1 <= c0 <= RS and 1 <= c1 <= RS
+    pre: 0 <= x <= PS - 1 and x <= z <= PS and 0 <= tt <= 2 and 0 <= i <= PS - 1 and 0 <= j <= 1
     post: _
     """
     return _cells_small(1, 1, c0, c1, x, 0, z, tt, i, j)
@@ -200,8 +205,8 @@ def kget_cells_small_cols(c0: int, c1: int, x: int, z: int, tt: int, i: int, j: 
 
 def kget_cells_small_rows(r0: int, r1: int, y: int, z: int, tt: int, i: int, j: int) -> bool:
     """
-    pre: 1 <= r0 <= 2 and 1 <= r1 <= 2
-    pre: 0 <= y <= 3 and y <= tt <= 4 and 0 <= z <= 2 and 0 <= i <= 1 and 0 <= j <= 3
+    pre: 1 <= r0 <= RS and 1 <= r1 <= RS
+    pre: 0 <= y <= PS - 1 and y <= tt <= PS and 0 <= z <= 2 and 0 <= i <= 1 and 0 <= j <= PS - 1
     post: _
     """
     return _cells_small(r0, r1, 1, 1, 0, y, z, tt, i, j)
@@ -209,8 +214,8 @@ def kget_cells_small_rows(r0: int, r1: int, y: int, z: int, tt: int, i: int, j: 
 
 def kget_column_small(r0: int, r1: int, c0: int, c1: int, x: int, k: int) -> bool:
     """
-    pre: 1 <= r0 <= 2 and 1 <= r1 <= 2 and 1 <= c0 <= 2 and 1 <= c1 <= 2
-    pre: 0 <= x <= 4 and 0 <= k <= 4
+    pre: 1 <= r0 <= RS and 1 <= r1 <= RS and 1 <= c0 <= RS and 1 <= c1 <= RS
+    pre: 0 <= x <= PS and 0 <= k <= PS
     post: _
     """
     # get_column_cells(x) / get_column_values(x): one cell per row, stamped (x, y), detached copies;
@@ -245,8 +250,8 @@ def kget_column_small(r0: int, r1: int, c0: int, c1: int, x: int, k: int) -> boo
 
 def kget_values_small(r0: int, r1: int, c0: int, c1: int, i: int, j: int) -> bool:
     """
-    pre: 1 <= r0 <= 2 and 1 <= r1 <= 2 and 1 <= c0 <= 2 and 1 <= c1 <= 2
-    pre: 0 <= i <= 4 and 0 <= j <= 4
+    pre: 1 <= r0 <= RS and 1 <= r1 <= RS and 1 <= c0 <= RS and 1 <= c1 <= RS
+    pre: 0 <= i <= PS and 0 <= j <= PS
     post: _
     """
     # full-matrix reads: get_values(), iter_values(), get_values(flat=True), cells: the expanded grid
@@ -272,8 +277,8 @@ def kget_values_small(r0: int, r1: int, c0: int, c1: int, i: int, j: int) -> boo
 
 def ktrans_twice_small(r0: int, r1: int, c0: int, c1: int, qx: int, qy: int) -> bool:
     """
-    pre: 1 <= r0 <= 2 and 1 <= r1 <= 2 and 1 <= c0 <= 2 and 1 <= c1 <= 2
-    pre: 0 <= qx <= 4 and 0 <= qy <= 4
+    pre: 1 <= r0 <= RS and 1 <= r1 <= RS and 1 <= c0 <= RS and 1 <= c1 <= RS
+    pre: 0 <= qx <= PS and 0 <= qy <= PS
     post: _
     """
     # transpose: value (qx, qy) moves to (qy, qx), sizes swap; transposing twice gives the original back
@@ -313,7 +318,7 @@ def mk_trailing(r0, r1, c0, c1, e_rows, e_cols, styled):
 
 def krstrip(r0: int, r1: int, c0: int, c1: int, e_rows: int, e_cols: int, styled: bool, aggressive: bool, qx: int, qy: int) -> bool:
     """
-    pre: 1 <= r0 <= 3 and 1 <= r1 <= 3 and 1 <= c0 and 1 <= c1 and 0 <= e_rows <= 3 and 0 <= e_cols and 0 <= qx and 0 <= qy
+    pre: 1 <= r0 <= RS + 1 and 1 <= r1 <= RS + 1 and 1 <= c0 and 1 <= c1 and 0 <= e_rows <= RS + 1 and 0 <= e_cols and 0 <= qx and 0 <= qy
     post: _
     """
     # rstrip removes only trailing empty rows and cells (styled empties count as empty only when
@@ -336,7 +341,7 @@ def _norm(v, n):
 
 def kget_area_negative_rows(r0: int, r1: int, y: int, tt: int, z: int, j: int) -> bool:
     """
-    pre: 1 <= r0 <= 2 and 1 <= r1 <= 2
+    pre: 1 <= r0 <= RS and 1 <= r1 <= RS
     pre: -(r0 + r1) <= y <= 2 and -(r0 + r1) <= tt <= 2 and -2 <= z <= -1 and 0 <= j <= 2
     post: _
     """
@@ -358,7 +363,7 @@ def kget_area_negative_rows(r0: int, r1: int, y: int, tt: int, z: int, j: int) -
 
 def kget_area_negative_cols(c0: int, c1: int, x: int, z: int, i: int) -> bool:
     """
-    pre: 1 <= c0 <= 2 and 1 <= c1 <= 2
+    pre: 1 <= c0 <= RS and 1 <= c1 <= RS
     pre: -(c0 + c1) <= x <= 3 and -(c0 + c1) <= z <= 3 and 0 <= i <= 3
     post: _
     """
@@ -374,7 +379,7 @@ def kget_area_negative_cols(c0: int, c1: int, x: int, z: int, i: int) -> bool:
 
 def kget_columns_range_small(c0: int, c1: int, x: int, z: int, i: int, four: bool) -> bool:
     """
-    pre: 1 <= c0 <= 2 and 1 <= c1 <= 2 and 0 <= x <= 4 and 0 <= z <= 5 and 0 <= i <= 4
+    pre: 1 <= c0 <= RS and 1 <= c1 <= RS and 0 <= x <= PS and 0 <= z <= PS + 1 and 0 <= i <= PS
     post: _
     """
     # C19/C08: get_columns over a column range is bounded on both sides: columns x..min(z, width-1),
@@ -391,7 +396,7 @@ def kget_columns_range_small(c0: int, c1: int, x: int, z: int, i: int, four: boo
 
 def koptimize(r0: int, r1: int, c0: int, c1: int, e_rows: int, e_cols: int, qx: int, qy: int) -> bool:
     """
-    pre: 1 <= r0 <= 3 and 1 <= r1 <= 3 and 1 <= c0 and 1 <= c1 and 0 <= e_rows <= 3 and 0 <= e_cols and 0 <= qx and 0 <= qy
+    pre: 1 <= r0 <= RS + 1 and 1 <= r1 <= RS + 1 and 1 <= c0 and 1 <= c1 and 0 <= e_rows <= RS + 1 and 0 <= e_cols and 0 <= qx and 0 <= qy
     post: _
     """
     # optimize_width keeps every non-empty value at its coordinates (the last data row may itself be a
@@ -410,7 +415,7 @@ def koptimize(r0: int, r1: int, c0: int, c1: int, e_rows: int, e_cols: int, qx: 
 
 def krstrip_styled_rows(r0: int, c0: int, e_rows: int, aggressive: bool, qx: int, qy: int) -> bool:
     """
-    pre: 1 <= r0 <= 3 and 1 <= c0 and 1 <= e_rows <= 3 and 0 <= qx and 0 <= qy
+    pre: 1 <= r0 <= RS + 1 and 1 <= c0 and 1 <= e_rows <= RS + 1 and 0 <= qx and 0 <= qy
     post: _
     """
     # trailing rows made only of STYLED empty cells: removed by rstrip(aggressive=True), kept otherwise;
@@ -439,7 +444,7 @@ def krstrip_styled_rows(r0: int, c0: int, e_rows: int, aggressive: bool, qx: int
 
 def ktrans_ragged(w0: int, w1: int, rep: int, qx: int, qy: int) -> bool:
     """
-    pre: 1 <= w0 <= 3 and 1 <= w1 <= 3 and 1 <= rep <= 2 and 0 <= qx <= 3 and 0 <= qy <= 3
+    pre: 1 <= w0 <= RS + 1 and 1 <= w1 <= RS + 1 and 1 <= rep <= RS and 0 <= qx <= RS + 1 and 0 <= qy <= RS + 1
     post: _
     """
     # ragged table: a first row of w0 cells (value 1), then `rep` rows of w1 cells (value 2); missing
